@@ -20,6 +20,7 @@ ENTRIES = [
     (U64, 2 ** 32 - 1, 'n' * 19),       # extreme values, longest name that fits with its NUL
     (3, 0, 'hé€llo'),         # multi-byte UTF-8
     (4, 8, b'ab\0junk'),                # junk after the NUL
+    (5, 7, ''),                         # same pid as entries 0/1 with an EMPTY name (a later entry wins even when empty)
 ]
 CAPTURED = (b'\x8b\xf3\x8f1\x13\xeb\x03\x00ework_BusinessChat-7.0.1-py2.py3\xdeJ\x88\x00\x00\x00\x00\x00'
             b'\x90\x00\x01\x03\x01\x00\x00\x00\x00\x00\x00\x00\x00\x00\x00\x00')
@@ -181,15 +182,47 @@ def judge_history(seq, mode):
     return bad, (tuple(sorted(tp.items())), tuple(sorted(pn.items())))
 
 
+def judge_concurrent(a, b, schedule):
+    """two version-2 parses alive at once (separate parser objects, separate tables), their generators advanced in the order
+    given by `schedule` (0 = first, 1 = second): each must yield exactly its own records."""
+    dumps = []
+    for name in (a, b):
+        tm_idx, pad, kinds = C_DUMPS[name]
+        blob, threads, recs = build(tm_idx, pad, kinds)
+        dumps.append((blob, [ref_decode(r) for r in recs]))
+    gens = [KdBufParser({}, {}).parse(io.BytesIO(d[0])) for d in dumps]
+    got = [[], []]
+    try:
+        for who in schedule:
+            got[who].append(obs_event(next(gens[who])))
+        for who in (0, 1):
+            for e in gens[who]:
+                got[who].append(obs_event(e))
+    except Exception as ex:
+        return ('v2-concurrent-parse-raised:' + type(ex).__name__, {'error': repr(ex)[:200]})
+    for who in (0, 1):
+        if got[who] != dumps[who][1]:
+            return ('v2-concurrent-parses-interfere', {'parse': who, 'got_n': len(got[who]), 'exp_n': len(dumps[who][1]),
+                                                     'first_diff': next((i for i, (x, y) in enumerate(zip(got[who], dumps[who][1])) if x != y), None)})
+    return None
+
+
+C_DUMPS = {
+    'P': ((0,), 0, ('cap', 'ff', 'dist')),
+    'Q': ((3,), 64, ('dist', 'z1', 'cap')),
+    'R': ((), 1, ('ff', 'ff')),
+}
+
+
 class C02(Check):
     pid = 'C02'
     level = 'model_checking'
     rule = ('version-2 dumps written by an independent encoder: full product thread map (all sequences of <=2 (quick) / <=3 '
-            '(thorough) entries over 6 entry kinds incl. duplicate tid, duplicate pid, empty/19-byte/multi-byte/junk-after-NUL '
+            '(thorough) entries over 7 entry kinds incl. duplicate tid, duplicate pid, empty/19-byte/multi-byte/junk-after-NUL '
             'names) x padding length (12 values incl. 0, 1, 63..65, page alignment) x record sequence (<=2 (quick) / <=3 '
             '(thorough) over 8 record kinds incl. records beginning with 1,2,7,8 zero bytes and an all-zero record in '
             'non-first position) x both entry points; plus all sequences of <=3 parses over 4 dumps through the same table '
-            'objects in 4 reuse modes. Oracle: events == independent decode of each record; tables == file map (last wins), '
+            'objects in 4 reuse modes; plus two parses ALIVE AT ONCE (3x3 dump pairs), their generators advanced in every interleaving. Oracle: events == independent decode of each record; tables == file map (last wins), '
             'identity preserved, nothing left over. non-trivial = dump has >=1 record and >=1 map entry (or history length >=2). '
             'states = distinct table contents after a parse; transitions = parse calls.')
     assumptions = ('a first record of 64 zero bytes is indistinguishable from padding and is not generated first',
@@ -219,6 +252,7 @@ class C02(Check):
         tms = self._tms()
         out = [('dumps', chunk) for chunk in chunked(tms, 64)]
         out.append(('hist',))
+        out.append(('concurrent',))
         return out
 
     def run_shard(self, desc, acc):
@@ -237,6 +271,16 @@ class C02(Check):
                                                     'entry': entry}, detail)
                         if acc.want_sample() and tm and len(kinds) >= 2:
                             acc.sample({'threadmap': [repr(ENTRIES[i]) for i in tm], 'pad': pad, 'records': list(kinds)})
+        elif desc[0] == 'concurrent':
+            from mc.space import interleavings
+            for a, b in itertools.product(C_DUMPS, repeat=2):
+                na, nb = len(C_DUMPS[a][2]), len(C_DUMPS[b][2])
+                for sched in interleavings([na, nb]):
+                    bad = judge_concurrent(a, b, sched)
+                    acc.case(nontrivial=len(set(sched)) == 2, transitions=na + nb, outcome=h64((a, b, sched)))
+                    if bad:
+                        acc.violation(bad[0], {'kind': 'concurrent', 'a': a, 'b': b, 'schedule': list(sched)}, bad[1])
+            acc.sample({'concurrent_parses': ['P', 'Q'], 'schedule': [0, 1, 0, 1, 1, 0]})
         else:
             for mode in ('kd', 'kd1', 'facade', 'facade+traces'):
                 for seq in seqs(list(H_DUMPS), 3, 1):
@@ -250,6 +294,9 @@ class C02(Check):
         if case['kind'] == 'dump':
             pad = case['pad']
             return judge_dump(tuple(case['tm']), pad, tuple(case['records']), case['entry'])
+        if case['kind'] == 'concurrent':
+            bad = judge_concurrent(case['a'], case['b'], tuple(case['schedule']))
+            return [bad] if bad else []
         bad, _ = judge_history(tuple(case['seq']), case['mode'])
         return bad
 
